@@ -135,6 +135,7 @@ def verify_function(ct, label=None, params=None, observe=None):
             except PyRaise as pr:
                 interp._cur_label = flabel
                 exc = pr.exc.clsname
+                ctx.ghost["raised"] = pr.exc  # contracts may speak about the exception's arguments (e.g. the path named in a message)
                 conds = []
                 for e2, when, iff in ct._raises:
                     if e2 == exc:
